@@ -2,7 +2,7 @@
 
 E-sched.  One Ombott application (sim/apps/echo.py, traced) serves 2-3 requests
 on 2-3 real threads.  Which thread runs is decided by the deterministic
-scheduler at every traced line (or opcode) of the framework and handler code,
+scheduler at every traced line (or bytecode instruction) of the framework and handler code,
 from the run seed; the executed switch list is recorded and replays the run.
 
 Oracles (history check after the run):
@@ -40,7 +40,7 @@ TIERS = {
 RULE = ('seeded runs: 2-3 request specs (kinds: echo GET/POST/HEAD, multipart upload, raised HTTPError / HTTPResponse, '
         'custom 418 error handler, crashing handler (500 page), lazily-run generator body, 404, 405, JSON-requesting 404, '
         'malformed and well-formed chunked bodies, over-limit body, undecodable path) x application config x schedule '
-        'strategy (uniform(p), PCT(d), explicit random switch points) x granularity (line; opcode in thorough). Sweep '
+        'strategy (uniform(p), PCT(d), explicit random switch points) x granularity (line; instruction in a quarter of the seeded runs). Sweep '
         'units: ordered pairs of kinds, thread 0 pre-empted exactly once at step s for every s of its solo trace. A '
         'run is non-trivial when at least one thread was pre-empted in the middle of its request so that another request ran meanwhile. '
         'distinct = distinct (specs, executed switch list) digests among non-trivial runs; states = distinct pairs '
@@ -49,12 +49,12 @@ STATE_MEASURE = 'distinct (pre-empted location, resumed location) pairs, locatio
 COMPONENTS = {
     'real': ['ombott (one shared Ombott: __call__/_handle/_cast, Request, Response, ts_props, HeaderDict, body reader, '
              'multipart, error pages, router)', 'threading.local', 'real threads (one per simulated request)'],
-    'simulated': ['thread scheduler (sim.sched: baton passing, sys.settrace line/opcode events as pre-emption points)',
+    'simulated': ['thread scheduler (sim.sched: baton passing, sys.settrace line events / sys.monitoring INSTRUCTION events as pre-emption points)',
                   'WSGI server (sim.wsgi.call_app)', 'wsgi.input (io.BytesIO)'],
     'stubbed': [],
 }
 ASSUMPTIONS = [
-    'pre-emption happens only between traced lines/opcodes of /repo/ombott and of the handler module; stdlib and C code run atomically',
+    'pre-emption happens only between traced lines / instructions of /repo/ombott and of the handler module; stdlib and C code run atomically',
     'the error-page template cache and filter cache are warm (one request of every kind is served per worker before the first run) '
     'except in runs marked cold, which empty the template cache first',
 ]
@@ -286,7 +286,7 @@ def served_alone(spec, cfg, gran):
     if got is None:
         app = new_app(cfg)
         out = Outcome()
-        s = Sched(1, {'mode': 'explicit', 'first': 0, 'switches': []}, prefixes=PREFIXES, granularity=gran)
+        s = Sched(1, {'mode': 'explicit', 'first': 0, 'switches': []}, prefixes=PREFIXES, granularity=gran, max_steps=4_000_000)
         s.run([lambda: serve(app, spec, out)])
         if s.errors[0] is not None:
             raise HarnessError(f'served-alone run raised {type(s.errors[0]).__name__}: {s.errors[0]}')
@@ -361,7 +361,7 @@ def setup_worker():
     before the first scheduled run."""
     pristine.start()        # before this process serves anything
     rng = random.Random(1)
-    for gran in ('line',):
+    for gran in ('line', 'instr'):
         for kind in KINDS:
             for debug in (False, True):
                 spec = gen_spec(rng, 0, kind)
@@ -380,10 +380,10 @@ def gen_case(rng, tier):
                 specs[i] = [specs[i], gen_spec(rng, k)]
                 k += 1
     cfg = {'debug': rng.random() < 0.5, 'B': rng.choice([64, 102400])}
-    gran = 'line'
-    # (opcode granularity is not generated: CPython 3.12.1 segfaults under f_trace_opcodes in frames that
+    gran = 'instr' if rng.random() < 0.25 else 'line'
+    # (instruction granularity goes through sys.monitoring; the f_trace_opcodes mechanism is not used: CPython 3.12.1 segfaults under it in frames that
     #  handle exceptions - reproduced in ombott's BodyMixin._body; see DESIGN.md 10)
-    est = 450 * sum(len(t) if isinstance(t, list) else 1 for t in specs) * (6 if gran == 'opcode' else 1)
+    est = 450 * sum(len(t) if isinstance(t, list) else 1 for t in specs) * (9 if gran == 'instr' else 1)
     return {'threads': specs, 'cfg': cfg, 'gran': gran, 'plan': gen_plan(rng, est, n),
             'cold': rng.random() < 0.15, 'ctx_copy': rng.random() < 0.2}
 
@@ -444,7 +444,7 @@ def run_case(case):
     outs = [[Outcome() for _ in lst] for lst in lists]
     inflight = set()
     overlap = [0]
-    s = Sched(n, case['plan'], prefixes=PREFIXES, granularity=gran)
+    s = Sched(n, case['plan'], prefixes=PREFIXES, granularity=gran, max_steps=(4_000_000 if gran == 'instr' else 400_000))
 
     def on_switch(frm, to):
         # the pre-empted thread stands in the middle of its request while another request runs
@@ -566,5 +566,5 @@ def shrink_candidates(case):
     if case['cfg'].get('debug'):
         c = shrink.with_key(case, 'cfg', dict(case['cfg'], debug=False))
         yield c
-    if case.get('gran') == 'opcode':
+    if case.get('gran') in ('opcode', 'instr'):
         yield shrink.with_key(case, 'gran', 'line')
